@@ -66,7 +66,7 @@ def main():
             if any(p.endswith("main.go") for p in placed):
                 r = sh(["go", "run", "./zzdemo"], cwd=wt, env=ENV)
             else:
-                r = sh(["go", "test", "-vet=off", "-count=1"] + runarg + demo_pkgs, cwd=wt, env=ENV)
+                r = sh(["go", "test", "-vet=off", "-count=1"] + (["-race"] if "--race-demo" in sys.argv else []) + runarg + demo_pkgs, cwd=wt, env=ENV)
             return r.returncode, r.stdout[-1500:]
         rc0, out0 = demo()
         meta["demo_without_change"] = "pass" if rc0 == 0 else "FAIL"
